@@ -100,6 +100,8 @@ func (y *c12L1Sys) Letters(s *c12L1State) []engine.Letter {
 			}
 		}
 	}
+	// one account in both roles of bridge 1 (legal): it must then pass every guard either role passes
+	ls = append(ls, engine.Letter{Name: "UpdateChallenger(b1,to=the-current-proposer,by=gov)", Data: c12Rot{0, "challenger", s.prop[0], "gov", false}})
 	ls = append(ls, engine.Letter{Name: "UpdateProposer(b1,to=PROPOSER2-IN-UPPER-CASE,by=gov)", Data: c12Rot{0, "proposer", "proposer2", "gov", true}})
 	ls = append(ls, engine.Letter{Name: "UpdateChallenger(b1,to=CHALLENGER2-IN-UPPER-CASE,by=gov)", Data: c12Rot{0, "challenger", "challenger2", "gov", true}})
 	return ls
@@ -321,7 +323,8 @@ func (y *c12L2Sys) Letters(s *c12L2State) []engine.Letter {
 		{Name: "SetExecutors(e1)", Data: c12SetExecs{[]string{"e1"}}},
 		{Name: "SetExecutors(e2)", Data: c12SetExecs{[]string{"e2"}}},
 		{Name: "SetExecutors(e1,e2)", Data: c12SetExecs{[]string{"e1", "e2"}}},
-		{Name: "SetExecutors()", Data: c12SetExecs{nil}}, // every executor is revoked: nobody holds the role
+		{Name: "SetExecutors(e2,e1)", Data: c12SetExecs{[]string{"e2", "e1"}}}, // the same two, listed the other way round (one of the two orders is not sorted)
+		{Name: "SetExecutors()", Data: c12SetExecs{nil}},                       // every executor is revoked: nobody holds the role
 	}
 	if len(s.execs) > 0 { // sent by a current executor
 		ls = append(ls, engine.Letter{Name: "SetBridgeInfo(client=\"\")", Data: c12SetInfo{""}}, engine.Letter{Name: "SetBridgeInfo(client=07-tendermint-0)", Data: c12SetInfo{"07-tendermint-0"}})
